@@ -147,4 +147,11 @@ CHECKS = {
              'Real BubblePoint / DewPoint objects on synthetic chemicals (ideal package) are called with 1-5 components incl. zero and trace ones, at any scale and order of the list, and the returned T, P, y / x compared with the rationals by TLC. '
              'For water-alcohol and hydrocarbon packages (ideal and Dortmund UNIFAC) the driver re-evaluates the defining equations with the library\'s own model objects and logs residuals for every clause; TLC judges them.',
         note='Trusted: TLC; Psat / Gamma / Phi / PCF objects of the library when re-evaluating the equations on real packages (C16 covers Gamma); tolerance 1e-6 relative there.'),
+    'C20': dict(
+        engine='Separations', category='model_checking',
+        technique='TLA+ spec defining the routing helpers (mix-and-split, phase split) and stating the others as balance-and-target contracts (Separations.tla), model-checked by TLC; histories of real helper calls are validated step by step by TLC',
+        text='TLC verifies on all small tables that the definitions of mix-and-split and phase split close the balance (inlets before = outlets after, also with the outlet among the inlets). '
+             'Histories of calls to the real helpers on five streams and a two-phase stream log all flows before / after; TLC judges per call: per-chemical balance, non-negativity unless infeasibility is reported, split / moisture / partition-coefficient / '
+             'reconstruction / residual targets, forced top and bottom chemicals, frame (untouched streams).',
+        note='Trusted: TLC; targets measured in floating point by the driver; equilibrium wrappers judged on balance only.'),
 }
